@@ -837,11 +837,74 @@ def expected_cascade(rules, style_str, default):
 _rt_memo = {}
 
 
+def noinherit_front(style):
+    """the same style string with every word 'noinherit' taken out and one put in FRONT (None: the word
+    does not occur).  By the property a string means the same wherever the word stands: it only selects
+    the starting point, every other word keeps its effect."""
+    words = style.split()
+    if "noinherit" not in words:
+        return None
+    return " ".join(["noinherit"] + [w for w in words if w != "noinherit"])
+
+
+def check_noinherit(style, site):
+    """`noinherit` never wipes what the other words of the SAME string set"""
+    front = noinherit_front(style)
+    if front is None:
+        return []
+    try:
+        a, b2 = _parse_style_str(style), _parse_style_str(front)
+    except ValueError:
+        return []
+    if a != b2:
+        return [{"signature": "_parse_style_str | 'noinherit' wipes attributes set by other words of the same string",
+                 "msg": f"{site}: {style!r} parses to {a}, but {front!r} (same words, noinherit first) to {b2}"}]
+    return []
+
+
 def oracle_q(case):
     v = []
     res, styles = q_results(case)
     if styles is None:
         return v
+    # rules whose style string has 'noinherit' somewhere: the resolved attributes must be those of the sheet
+    # in which the word stands first in each such rule (position independence), shown on the cascade itself
+    moved = False
+    norm_sheets = []
+    for sh in case["sheets"]:
+        if sh is None:
+            norm_sheets.append(None)
+            continue
+        ns = []
+        for names, st in sh:
+            f = noinherit_front(st)
+            if f is not None and f != st:
+                moved = True
+            ns.append([names, st if f is None else f])
+        norm_sheets.append(ns)
+    if moved:
+        nstyles, nerr = build_sheets(norm_sheets, case.get("wrap"))
+        if not nerr:
+            nst = the_style(nstyles, bool(case.get("wrap")))
+            dflt0 = mk_default(case)
+            for s0, r0 in zip(case["strs"], res):
+                if isinstance(r0, str):
+                    continue
+                try:
+                    w0 = nst.get_attrs_for_style_str(s0, dflt0)
+                except ValueError:
+                    continue
+                if w0 != r0:
+                    v.append({"signature": "_parse_style_str | 'noinherit' wipes attributes set by other words of "
+                                           "the same string",
+                              "msg": f"sheets={case['sheets']!r} style={s0!r} resolves to {r0}; with 'noinherit' moved "
+                                     f"to the front of each rule ({norm_sheets!r}) to {w0}: the value is not the one "
+                                     f"given by the last applicable rule"})
+                    break
+    for s0 in case["strs"]:
+        for part in s0.split():
+            if not part.startswith("class:"):
+                v += check_noinherit(part, "inline part")
     live = [s for s in styles if s is not None]
     all_rules = [tuple(r) for s in case["sheets"] if s is not None for r in s]
     try:
@@ -1156,7 +1219,10 @@ def oracle(case):
         v = oracle_tr(case)
     elif k == "stream":
         v = oracle_stream(case)
-    # pc / ps / ex / hex / ansi: correspondence only (building blocks)
+    elif k == "ps":
+        for t in case["texts"]:
+            v += check_noinherit(t, "_parse_style_str")
+    # pc / ex / hex / ansi: correspondence only (building blocks)
     seen, out = set(), []
     for x in v:
         if x["signature"] not in seen:
@@ -1200,6 +1266,8 @@ def oracle_fd(case):
         if not ok:
             v.append({"signature": "Style.from_dict | MOST_PRECISE is not the stable sort by number of elements",
                       "msg": f"items={items!r} -> {rules!r}"})
+    for _, sty in items:
+        v += check_noinherit(sty, "Style.from_dict rule")
     dflt = mk_default(case)
     for t in case["strs"]:
         r = q_or_err(st, t, dflt)
@@ -1509,6 +1577,14 @@ def rand_style(rng, pool, maxn):
     s = ""
     for i in range(n):
         s += (rng.choice(WS) if i else rng.choice(["", "", " "])) + rng.choice(pool)
+    if n and rng.random() < 0.12:
+        # 'noinherit' in the middle / at the end / twice
+        ws = s.split()
+        if ws:
+            ws.insert(rng.randrange(1, len(ws) + 1), "noinherit")
+            if rng.random() < 0.3:
+                ws.insert(rng.randrange(len(ws) + 1), "noinherit")
+            s = " ".join(ws)
     return s + rng.choice(["", "", " "])
 
 
@@ -1756,6 +1832,42 @@ def _cases(tier, rng):
     items = [[bg, r, g, b, ex] for bg in (0, 1) for (r, g, b) in near[::7] for ex in ([], ["ansired"])]
     for ch in chunks(items, 400):
         yield {"k": "c16code", "items": ch}
+    # --- 'noinherit' at every position among the words of a rule / an inline string --------------------
+    ni_words = ["bold", "#ff0000", "bg:#00ff00", "underline", "nobold", "italic"]
+    ni_styles = []
+    for ln in (1, 2, 3):
+        for combo in itertools.permutations(ni_words, ln):
+            if ln == 3 and rng.random() < (0.85 if quick else 0.3):
+                continue
+            for pos in range(ln + 1):
+                w = list(combo)
+                w.insert(pos, "noinherit")
+                ni_styles.append(" ".join(w))
+            w = ["noinherit"] + list(combo) + ["noinherit"]
+            ni_styles.append(" ".join(w))
+            w = list(combo)
+            w.insert(ln // 2, "noinherit noinherit")
+            ni_styles.append(" ".join(w))
+    yield {"k": "ps", "texts": ni_styles + ["noinherit noinherit", "bold\tnoinherit", "bold xnoinherit", "noinheritx bold",
+                                            "bold border:noinherit", "bold [noinherit]", "#ff0000 noinherit nosuch"]}
+    ni_strs = ["class:a", "class:b class:a", "class:a class:b", "class:a,b italic", "strike class:a", ""]
+    for i, st in enumerate(ni_styles):
+        base = [["b", "blink bg:#0000ff"], ["", "hidden"]]
+        kind = i % 4
+        if kind == 0:
+            sheets = [base + [["a", st]]]
+        elif kind == 1:
+            sheets = [base, [["a", st]]]                       # merged: the rule lives in the second sheet
+        elif kind == 2:
+            sheets = [[["a", st]], None, base]                 # merged: ... in the first
+        else:
+            sheets = [[["", st], ["a b", st]] + base]          # as default rule and as combination rule
+        yield {"k": "q", "sheets": sheets, "strs": ni_strs}
+    for st in ni_styles[:: (9 if quick else 2)]:
+        # the same words as INLINE parts (each word is parsed on its own there)
+        yield {"k": "q", "sheets": [[["a", "bold #123456 bg:#654321"]]], "strs": ["class:a " + st, st + " class:a", st]}
+    for st in ni_styles[:: (7 if quick else 2)]:
+        yield {"k": "fd", "items": [["a", st], ["b", "blink"], ["a b", "strike " + st]], "mp": True, "strs": ni_strs[:4]}
     # --- Style.from_dict / Priority -----------------------------------------------------
     fd_names = ["a", "b", "a.x", "a b", "b a.x", "a.x.y", "", "b.y  a", "c"]
     fd_strs = ["class:a", "class:a.x class:b", "class:b class:a.x.y", "class:a,b nobold", ""]
